@@ -1,4 +1,4 @@
-From V Require Import Common.Base Common.Utf8 C07.LineCol C07.Builder C07.Vlq C07.SpecMap C07.Mappings C07.MappingsProofs C07.FindProofs C07.JoinProofs C07.SpecBuilder C07.LineColProofs.
+From V Require Import Common.Base Common.Utf8 C07.LineCol C07.Builder C07.Vlq C07.SpecMap C07.Mappings C07.MappingsProofs C07.FindProofs C07.JoinProofs C07.SpecBuilder C07.LineColProofs C07.JoinAll C07.JoinAllProofs.
 (* non-vacuity / sanity: concrete values *)
 Example enc_ex : map encodeVLQ [0; 1; -1; 15; 16; -16; 123456] =
   [[65]; [67]; [68]; [101]; [103; 66]; [104; 66]; [103; 107; 120; 72]].
@@ -41,4 +41,24 @@ Example builder_exact_ex :
 Proof.
   split; [|vm_compute; reflexivity].
   repeat (apply Forall_cons; [right; vm_compute; auto 10|]). apply Forall_nil.
+Qed.
+(* join_all_decodes: three files (the first and third share a source index, the
+   second starts on the line where the first ended), hypotheses hold, the
+   joined mappings are non-trivial *)
+Example join_all_ex :
+  let f1 := mkJfile [OMap 0 0 0 0 None; OMap 4 0 0 4 (Some 0)] 1 9 (1, 0) 7 in
+  let f2 := mkJfile [ONewline; OMap 2 0 1 3 (Some 0); ONewline] 1 0 (0, 3) 5 in
+  let f3 := mkJfile [OMap 1 0 2 0 None] 0 6 (0, 2) 7 in
+  Forall file_ok [f1; f2; f3] /\
+  assign_sources (map res_of [f1; f2; f3]) [] 0 = [(7, 0); (5, 1)] /\
+  joined_abs [(7, 0); (5, 1)] [f1; f2; f3] (0, 0) 0 =
+    [mkAbs 1 0 (Some (0, 0, 0)) None; mkAbs 1 4 (Some (0, 0, 4)) (Some 0);
+     mkAbs 2 2 (Some (1, 1, 3)) (Some 1); mkAbs 3 3 (Some (0, 2, 0)) None] /\
+  join_all (map res_of [f1; f2; f3]) = Some (emit_bytes (joined_ops [(7, 0); (5, 1)] [f1; f2; f3] 0 0)).
+Proof.
+  split; [|vm_compute; repeat split; reflexivity].
+  repeat constructor; cbn [fst f_off]; try lia.
+  - exists 0%nat, 0, 0, 0, 0, None, [OMap 4 0 0 4 (Some 0)]. reflexivity.
+  - exists 1%nat, 2, 0, 1, 3, (Some 0), [ONewline]. reflexivity.
+  - exists 0%nat, 1, 0, 2, 0, None, []. reflexivity.
 Qed.
